@@ -71,4 +71,92 @@ theorem mtp_core (addr : Nat) (s1 : MHSt r) (d : Nat) (child nr : MTree r d) (ro
 
 end core
 
+section promote
+variable {r : Nat} {T : Nat} {D : DigestFn (r + 1)}
+
+/-- what `Ob_promote_heap` needs of the single child, from the tree invariant of a non-root slab -/
+theorem mtp_child_facts (hT : legalThreshold T = true) : ∀ (d : Nat) (child : MTree r d),
+    MTreeInv T D d false child → (∀ x ∈ MTree.digests0 d child, x < 2^64) →
+    (d = 0 → Gen.mapDataSlabPrefixSize ≤ (MTree.hdr d child).size) ∧ mr_RootFit d child
+  | 0, child, hinv, hdig => by
+    have h : MDataInv T D false (child : MDataSlab r) := (mtreeInv_zero_iff T D false child).mp hinv
+    have w := MDataWork.of_inv hT h
+    have f := msafe_work_fits hT w
+    have hlv := (msafe_elemsInv_top h).1
+    have hmin := h.ge_min rfl
+    have ht := thresholds_fit hT
+    refine ⟨fun _ => ?_, ⟨by omega, by rw [hlv]; decide, hdig⟩⟩
+    show Gen.mapDataSlabPrefixSize ≤ (MDataSlab.hdr child).size
+    simp only [Gen.mapDataSlabPrefixSize]; omega
+  | d + 1, _, _, _ => ⟨fun e => (by cases e), trivial⟩
+
+/-- **the `promote` field of `MRootTail T (rsOf T) (MQ T D)`**, with the invariant of the RESULT handle as an explicit
+    hypothesis about the model value (`hQ'`, for an arbitrary `Q'`): as stated in `MRootTail` the field asks for
+    `MQ T D` of the new root, which is FALSE (`MQ` contains `SInv T D d false`, i.e. `.root = false`, but
+    `promoteIfSingleChild` sets the root flag of the new root).  Everything else of the field is proved: the equation
+    for `(rsOf T).promote`, the model's `Ctx`, `popped`, the handle invariant of the result (held WITH the handle's
+    extra data, identifiers distinct / the owner's, fresh identifiers free) and `mds_Delta`. -/
+theorem MRootTail_promote_rsOf_partial (hT : legalThreshold T = true) (Q' : (d : Nat) → MTree r d → Prop) :
+    ∀ (addr d : Nat) (xr : MMetaSlab (MTree r d)) (ty cnt seed : Nat) (h : MHdr) (s1 : MHSt r) (x0 : Option DX),
+    xr.childHdrs = [h] → xr.childHdrs = xr.children.map (MTree.hdr d) →
+    mds_RootPre (MQ T D) addr s1 ⟨d + 1, xr, ty, cnt, seed⟩ x0 →
+    Q' (OMap.promoteIfSingleChild ⟨d + 1, xr, ty, cnt, seed⟩ s1.ctx).1.d
+      (OMap.promoteIfSingleChild ⟨d + 1, xr, ty, cnt, seed⟩ s1.ctx).1.root →
+    ∃ s2, (rsOf T).promote (md_map ⟨d + 1, xr, ty, cnt, seed⟩ s1) h.id =
+        (none, md_map (OMap.promoteIfSingleChild ⟨d + 1, xr, ty, cnt, seed⟩ s1.ctx).1 s2) ∧
+      s2.ctx = (OMap.promoteIfSingleChild ⟨d + 1, xr, ty, cnt, seed⟩ s1.ctx).2 ∧ s2.popped = s1.popped ∧
+      mds_RootPre Q' addr s2 (OMap.promoteIfSingleChild ⟨d + 1, xr, ty, cnt, seed⟩ s1.ctx).1
+        (some (md_extra (OMap.promoteIfSingleChild ⟨d + 1, xr, ty, cnt, seed⟩ s1.ctx).1)) ∧
+      mds_Delta s1.heap s2.heap (md_ids (d + 1) xr)
+        (md_ids _ (OMap.promoteIfSingleChild ⟨d + 1, xr, ty, cnt, seed⟩ s1.ctx).1.root) := by
+  intro addr d xr ty cnt seed h s1 x0 hh hmap hpre hQ'
+  obtain ⟨mh, mchs, mcs, mroot⟩ := xr
+  simp only at hh hmap
+  subst hh
+  obtain ⟨child, hc, hhd⟩ : ∃ child, mcs = [child] ∧ MTree.hdr d child = h := by
+    cases mcs with
+    | nil => cases hmap
+    | cons c cs =>
+      cases cs with
+      | nil => exact ⟨c, rfl, by simpa using hmap.symm⟩
+      | cons c' cs' => simp at hmap
+  subst hc
+  have hmq : MQ T D (d + 1) (⟨mh, [h], [child], mroot⟩ : MMetaSlab (MTree r d)) := hpre.inv
+  have hloose : MetaLoose T D d false (⟨mh, [h], [child], mroot⟩ : MMetaSlab (MTree r d)) := hmq.1.1
+  have hci : MTreeInv T D d false child := hloose.2.2.2.2.1 child List.mem_cons_self
+  have hdig : ∀ x ∈ MTree.digests0 d child, x < 2^64 := fun x hx => hmq.2.2 x (by
+    show x ∈ [child].flatMap (MTree.digests0 d)
+    simpa using hx)
+  obtain ⟨hsz, hfit⟩ := mtp_child_facts hT d child hci hdig
+  have hheldr : MHolds s1.heap (d + 1) (⟨mh, [h], [child], mroot⟩ : MMetaSlab (MTree r d)) x0 := hpre.held
+  have hheldc : MHolds s1.heap d child none := hheldr.2 child List.mem_cons_self
+  have hheap : s1.heap h.id = some (md_tree d child none) := by rw [← hhd]; exact hheldc.root
+  have hrootSome : (s1.heap mh.id).isSome = true := by
+    have : s1.heap mh.id = some _ := hheldr.1
+    rw [this]; rfl
+  have hidsx : md_ids (d + 1) (⟨mh, [h], [child], mroot⟩ : MMetaSlab (MTree r d)) = mh.id :: md_ids d child := by
+    show mh.id :: [child].flatMap (md_ids d) = _
+    simp
+  have hnd : (mh.id :: md_ids d child).Nodup := hidsx ▸ hpre.nodup
+  have haddr : ∀ id ∈ mh.id :: md_ids d child, id.addr = addr := fun id hin => hpre.addrOk id (hidsx ▸ hin)
+  have ob := Ob_promote_heap T d (⟨mh, [h], [child], mroot⟩ : MMetaSlab (MTree r d)) ty cnt seed s1 h child rfl rfl
+    hheap hsz hfit
+  refine ⟨_, ob.1, ob.2, rfl, ?_⟩
+  rw [hidsx]
+  cases d with
+  | zero =>
+    have core := mtp_core addr s1 0 child
+      (MTree.setRoot 0 (MTree.setId 0 (({ (child : MDataSlab r) with hdr := { (child : MDataSlab r).hdr with
+        size := (child : MDataSlab r).hdr.size - Gen.mapDataSlabPrefixSize + Gen.mapRootDataSlabPrefixSize } } :
+        MDataSlab r) : MTree r 0) mh.id) true) mh.id h.id (some (ty, u64 cnt, seed)) rfl rfl (fun _ _ => trivial) (congrArg MHdr.id hhd)
+      hheldc hrootSome hnd haddr hpre.ff
+    exact ⟨⟨core.1, core.2.1, core.2.2.1, core.2.2.2.1, hQ'⟩, core.2.2.2.2⟩
+  | succ d =>
+    have core := mtp_core addr s1 (d + 1) child
+      (MTree.setRoot (d + 1) (MTree.setId (d + 1) child mh.id) true) mh.id h.id (some (ty, u64 cnt, seed)) rfl rfl
+      (fun _ hk => hk) (congrArg MHdr.id hhd) hheldc hrootSome hnd haddr hpre.ff
+    exact ⟨⟨core.1, core.2.1, core.2.2.1, core.2.2.2.1, hQ'⟩, core.2.2.2.2⟩
+
+end promote
+
 end Atree.TransEq
